@@ -10,7 +10,7 @@ from ..gen_lean import Def
 from ..runner import Corr, Failure
 from .c10 import cxvars
 
-LEAN_MODULES = ['SvgVerif.Props.C14']
+LEAN_MODULES = ['SvgVerif.Props.C14', 'SvgVerif.Props.C14General']
 
 SHAPES = {
     # name: (kinds of the segments, number of distinct points); the last segment returns to p0
@@ -84,7 +84,7 @@ def gen_defs(spt, salt=0):
 GEN = {'C14': gen_defs}
 
 ASSUMPTIONS = [
-    'the algebraic identities (shoelace, reversal, translation, determinant) are proved on five traced shapes (triangle, quadrilateral, cubic+line, quadratic+line, cubic+cubic); general n-segment paths follow the same per-segment arithmetic and are sampled',
+    'the general-n theorems are about the hand model pathArea (fold of per-segment closed forms), tied to the code by bridges to five traced closed shapes and by exact correspondence with the real Path.area() on rational control points',
     'that the per-segment value is the Green integral of x dy is proved only in closed form for cubic+line; orientation (positive for counter-clockwise) is pinned by concrete squares and sampled; the general Jordan-curve statement is not attempted',
     'arcs enter area() through a chord approximation (sampled); enclosure relies on Path.intersect (C11/C12) - the theorems cover the decision logic',
 ]
@@ -155,7 +155,33 @@ def correspond(ctx):
         impl.append(str(arc.calls - 1))
         c2.count('chord=%s' % chord)
     c2.compare(lines, [m.strip() for m in common.driver(lines)], impl)
-    return [c, c2]
+
+    # ---- Path.area() on closed paths of any number of Line/Quadratic/Cubic segments, exact rational control points ---------
+    from ..exactnum import Q, QC, qstr
+    c3 = Corr('Path.area/general closed Bezier path')
+    lines, impl = [], []
+    for it in range(ctx.n(150, 2000)):
+        n = r.randint(1, 6)
+        g = lambda: (Fr(r.randint(-6, 6), r.choice([1, 1, 2])), Fr(r.randint(-6, 6), r.choice([1, 1, 4])))
+        first = g()
+        cur = first
+        segs, spec = [], []
+        for i in range(n):
+            kind = r.choice(['L', 'L', 'Q', 'C'])
+            end = first if i == n - 1 else g()
+            if kind == 'L' and end == cur:
+                kind = 'Q'
+            pts = [cur] + [g() for _ in range({'L': 0, 'Q': 1, 'C': 2}[kind])] + [end]
+            segs.append({'L': P.Line, 'Q': P.QuadraticBezier, 'C': P.CubicBezier}[kind](*[QC(*q) for q in pts]))
+            spec.append(kind + ' ' + ' '.join(qstr(Q(v)) for q in pts for v in q))
+            cur = end
+        path = P.Path(*segs)
+        a = path.area()
+        lines.append('patharea ' + ' | '.join(spec))
+        impl.append(qstr(a if isinstance(a, Q) else Q(Fr(a))))
+        c3.count('n=%d' % n)
+    c3.compare(lines, [m.strip() for m in common.driver(lines)], impl)
+    return [c, c2, c3]
 
 
 def _shoelace(pts):
